@@ -11,6 +11,10 @@ checks = {
    technique="small-scope exhaustive enumeration of the real code against exact rational predicates (explicit-state)",
    text="Every subset of size 3..6 (7-8 thorough) of a jittered 4x4 lattice (general position verified exactly with big.Rat) in several jitter scales, coordinate scales and offsets, in sorted and reversed input order, through the real Delaunay2d and Delaunay2dSlow; oracle = the unique exact Delaunay triangulation (all triples with exactly-empty circumcircle), count 2n-2-h with an exact hull, exact empty-circle test. Equality: every permutation x every rotation of every real triangulation with <=5 triangles and of every set of <=3 (4 thorough) triples over indices 0..5, plus one-triangle-different negatives.",
    note="point sets are subsets of a fixed jittered lattice; two classes of genuine defects (hull slivers, absolute epsilon at micro scale) are listed in known_findings.json and matched by a predicate on the counterexample"),
+ "C14": dict(engine="E", design="3/C14",
+   technique="bounded-exhaustive enumeration of file contents (token sequences, lengths x header counts) through the real loader, worker subprocess with address-space limit",
+   text="Every sequence of <=5 (7 thorough) lines over a 12-line ASCII alphabet (padded past the 84-byte header, and unpadded for <=3 lines), every binary length 0..235 x a header-count menu (small, length-consistent +-1, 2^16, 2^31, 2^32-1 and every count consistent with the length only modulo 2^32 or 2^31) x 4 fill patterns, every truncation/extension of a valid binary and a valid ASCII file, a 70 KiB single line and a 30000-line file, through render.LoadSTL and obj.ImportSTL under recover with per-file allocation measurement; a dying worker (fatal OOM) is reported as a violation on the file being loaded.",
+   note="contents bounded to the alphabets; 'hang' is a 60 s watchdog on files <= 400 KiB; allocation bound 64*size+1MiB per binary file"),
 }
 props = [json.loads(l) for l in open(os.path.join(V, "properties.jsonl"))]
 pending_reason = "check not built yet in this session (work in progress, see DESIGN.md section 3 for the planned bounded-exhaustive check)"
